@@ -16,68 +16,88 @@ PROPERTY = "C14"
 RULE = (
     "cases = (model, mode n, count r in 1..I_n, flipsign) where the model is built so that the mode-n Gram matrix has a "
     "prescribed spectrum: 'spectral' = U diag(s) W^T folded along mode n with s geometric / a close pair (relative gap "
-    "4e-3) / one dominant value / rank-deficient / slow decay, scaled by 1e-3..1e3; 'cp' = Kruskal tensor with "
-    "orthonormal factor columns, weights of either sign, optional tiny generic components; 'sparse' = integer tensor "
-    "with one / some / all nonzeros.  Every holder (tensor, sptensor in two stored orders, ktensor, ttensor with dense "
-    "or sparse core) of the same array is a cell of its own and is compared with eigh of the Gram matrix of the "
-    "denoted array.  A fixed list of models is enumerated over every n and every r.  Non-trivial: 1 < r < I_n."
+    "4e-3) / one dominant value / rank-deficient / slow decay, scaled by 1e-6..1e6; 'cp' = Kruskal tensor with "
+    "orthonormal factor columns, weights of either sign (1e-6..1e6), optional tiny generic components; 'sparse' = "
+    "integer tensor with one / some / all nonzeros (also scaled by 1e-6 / 1e6); 'block' (cells */large and a tenth of "
+    "the histories) = integer data whose mode-n Gram matrix is exactly block diagonal with rank-one blocks, so the "
+    "leading vectors have exact structure: entries summing exactly to zero ((2,-1,-1), (1,-1), (1,1,-1,-1), ...), one or "
+    "two nonzero entries, exact ties in magnitude, all-equal entries; plus empty slices and a low-energy filler.  "
+    "Cells */large use mode sizes 21..40 (quick) / 21..64 (thorough), above ARPACK's default subspace of "
+    "min(I, max(2r+1, 20)) vectors, with r on both sides of 10 and at the solver switch r = I-2, I-1, I.  "
+    "Every holder (tensor, sptensor, ktensor, ttensor with dense core / sparse core / scipy coo factor matrices) of the "
+    "same array is a cell family of its own and is compared with eigh of the Gram matrix of the denoted array.  Holder "
+    "states: constructor, and states only public operations produce (tensor: grown by assignment, C-ordered input, "
+    "permute round trip, converted from sptensor, reconstructed from a ttensor; sptensor: random stored order, "
+    "explicitly stored zeros, zero by subscript assignment, numpy-integer shape, grown by assignment, converted from "
+    "tensor, permute round trip; ktensor: normalize(weight_factor=k), normalize(), arrange(), redistribute(k), "
+    "F-ordered input; ttensor: grown dense core, sparse core with random order + explicit zero + numpy-integer "
+    "shape, F-ordered factors, copy=False).  Storage dtype int64 / int32 / uint8 where the data are integer valued and "
+    "the class admits it (ktensor demands float).  n and r are passed as Python int, numpy.int64 or numpy.int32.  "
+    "C14/history/*: 2..4 nvecs calls on ONE object (different n / r / flipsign, or the same), with in-place edits of "
+    "one attribute array in between (tensor data, sptensor vals / one subscript row, ktensor weights / factor, ttensor "
+    "factor / coo factor data / core data or vals: scale a slice, shear a column, change an entry, scale everything, "
+    "zero a slice), calls on a fresh copy made from the current attributes, and the returned array overwritten by the "
+    "caller; every answer is judged against the array the object denotes at that moment.  A fixed list of models is "
+    "enumerated over every n and every r.  Non-trivial: 1 < r < I_n with separated leading eigenvalues (histories: such "
+    "a call after an edit)."
 )
 ASSUMPTIONS = [
     "reference: G = X_(n) X_(n)^T from the denoted array, numpy.linalg.eigh, eigenvalues in decreasing order",
     "value clauses apply when the r leading eigenvalues are pairwise separated, and separated from the (r+1)-th, by "
     "at least 1e-3*lambda_1 (the property quantifies over well separated leading eigenvalues); other cases only get "
     "the shape and real-dtype clauses",
-    "tolerances: V^T V = I within 1e-8; ||G v_j - lambda_j v_j|| <= 1e-6*lambda_1; captured energy within "
-    "1e-6*r*lambda_1; projector V V^T within 1e-6 (entrywise) of the reference projector; sign rule skipped for a "
-    "column whose two largest magnitudes differ by less than 1e-9",
+    "tolerances (all relative, the property is scale free): V^T V = I within 1e-8; ||G v_j - lambda_j v_j|| <= "
+    "1e-6*lambda_1; captured energy within 1e-6*r*lambda_1; projector V V^T within 1e-6 (entrywise) of the reference "
+    "projector; sign rule skipped for a column whose two largest magnitudes differ by less than 1e-9 (exact ties)",
     "np.random.seed(case['np_seed']) immediately before every nvecs call (ARPACK start vectors)",
     "holders denote the same array up to rounding of the orthogonal rotations used to build the Tucker/Kruskal forms "
-    "(1e-15 relative), far below the tolerances",
+    "(1e-15 relative), far below the tolerances; the block family uses exact forms (fibre Kruskal form, permutation "
+    "Tucker form, every second dense-core case a rotation)",
+    "derived holder states come out of public operations that other properties judge: when such an operation fails or "
+    "does not reproduce the array the holder falls back to the constructor (label state-ctor)",
+    "history steps: the value clauses additionally need lambda_1 >= 1e-4*||den_abs||_F^2, where den_abs is the array "
+    "denoted by the absolute values of the attributes (an edit may leave pure cancellation noise of a rotated form)",
+    "n, r as numpy.uint8 are not generated: scipy's eigsh does fixed-width arithmetic with the caller's integer type "
+    "(workspace size ncv*(ncv+8) wraps), which is outside what 'count r' promises; float32 data are not generated "
+    "(the tolerances above are for double precision)",
 ]
 
 logging.disable(logging.WARNING)  # pyttb warns through the root logger about memory order on internal copies
 
 
-def _check(ctx, case, make_holder, holder_name):
-    X = H.dense_of(case)
-    n, r, flip = case["n"], case["r"], case["flipsign"]
+def _npint(case, v):
+    """n and r as the case asks: plain Python int or a numpy integer scalar"""
+    t = case.get("npint")
+    return int(v) if not t else getattr(np, t)(v)
+
+
+def _verify(ctx, X, V, n, r, flip, pre="", values=True):
+    """the clauses of the property for one answer V = nvecs(n, r, flipsign=flip) of a holder denoting X; `pre` prefixes
+    the clause names (history cells: which solver path the step took).  Returns (separated, reference eigenvalues)."""
     I = X.shape[n]
     G, lam, Vref = H.reference(X, n)
     sep = H.separated(lam, r)
-    path = "iterative-path" if r < I - 1 else "dense-path"
-    ctx.nt = 1 < r < I and sep
-    ctx.label(holder_name, "family-" + case["family"], "spec-" + str(case.get("spectrum")), f"order{X.ndim}", path,
-              "separated" if sep else "not-separated", "flipsign" if flip else "noflip",
-              "r=1" if r == 1 else ("r=I" if r == I else ("r=I-1" if r == I - 1 else "1<r<I-1")))
-    obj = make_holder(case, X)
-    # the holder denotes the array the reference was computed from
-    D = ref.den(obj)
-    scale = np.max(np.abs(X)) if X.size else 0.0
-    if not (D.shape == X.shape and np.max(np.abs(D - X), initial=0.0) <= 1e-12 * max(scale, 1e-300)):
-        raise RuntimeError(f"harness: holder does not denote the model array (max diff {np.max(np.abs(D - X))})")
-    np.random.seed(case["np_seed"])
-    with ctx.sut(f"{holder_name}.nvecs"):
-        V = obj.nvecs(n, r, flipsign=flip)
-    ctx.require(isinstance(V, np.ndarray) and V.shape == (I, r), "nvecs-returns-In-by-r-array",
+    ctx.require(isinstance(V, np.ndarray) and V.shape == (I, r), pre + "nvecs-returns-In-by-r-array",
                 (type(V).__name__, getattr(V, "shape", None)))
     isreal = np.isrealobj(V)
-    ctx.check(isreal, "nvecs-real-dtype", str(V.dtype))
-    ctx.require(bool(np.isfinite(V).all()), "nvecs-finite")
-    if not sep:
-        return
+    ctx.check(isreal, pre + "nvecs-real-dtype", str(V.dtype))
+    ctx.require(bool(np.isfinite(V).all()), pre + "nvecs-finite")
+    if not sep or not values:
+        return False, lam
     if not isreal:
         # keep searching behind a complex dtype: the values must still be the real eigenvectors
-        ctx.require(float(np.max(np.abs(V.imag), initial=0.0)) <= 1e-12, "nvecs-imaginary-part-zero", float(np.max(np.abs(V.imag))))
+        ctx.require(float(np.max(np.abs(V.imag), initial=0.0)) <= 1e-12, pre + "nvecs-imaginary-part-zero", float(np.max(np.abs(V.imag))))
         V = np.ascontiguousarray(V.real)
+    V = np.asarray(V, dtype=float)
     l1 = lam[0]
-    ctx.check(float(np.max(np.abs(V.T @ V - np.eye(r)))) <= 1e-8, "nvecs-columns-orthonormal",
+    ctx.check(float(np.max(np.abs(V.T @ V - np.eye(r)))) <= 1e-8, pre + "nvecs-columns-orthonormal",
               float(np.max(np.abs(V.T @ V - np.eye(r)))))
     res = [float(np.linalg.norm(G @ V[:, j] - lam[j] * V[:, j])) for j in range(r)]
-    ctx.check(max(res) <= 1e-6 * l1, "nvecs-columns-are-eigenvectors-in-decreasing-order", (res, lam[: r + 1].tolist()))
+    ctx.check(max(res) <= 1e-6 * l1, pre + "nvecs-columns-are-eigenvectors-in-decreasing-order", (max(res) / l1, lam[: min(r + 1, 6)].tolist()))
     energy = float(np.trace(V.T @ G @ V))
-    ctx.check(abs(energy - float(lam[:r].sum())) <= 1e-6 * r * l1, "nvecs-captures-leading-energy", (energy, float(lam[:r].sum())))
+    ctx.check(abs(energy - float(lam[:r].sum())) <= 1e-6 * r * l1, pre + "nvecs-captures-leading-energy", (energy, float(lam[:r].sum())))
     P, Pref = V @ V.T, Vref[:, :r] @ Vref[:, :r].T
-    ctx.check(float(np.max(np.abs(P - Pref))) <= 1e-6, "nvecs-spans-dominant-subspace", float(np.max(np.abs(P - Pref))))
+    ctx.check(float(np.max(np.abs(P - Pref))) <= 1e-6, pre + "nvecs-spans-dominant-subspace", float(np.max(np.abs(P - Pref))))
     if flip:
         bad = []
         for j in range(r):
@@ -87,35 +107,159 @@ def _check(ctx, case, make_holder, holder_name):
                 continue
             if V[o[0], j] <= 0:
                 bad.append(j)
-        ctx.check(not bad, "nvecs-flipsign-largest-entry-positive", bad)
+        ctx.check(not bad, pre + "nvecs-flipsign-largest-entry-positive", bad)
+    return sep, lam
 
 
-def _sampled(families=None):
-    if families is None:
-        return lambda tier: H.model_case(tier)
-    return lambda tier: H.model_case(tier, families=families)
+def _magnitude(X):
+    m = float(np.max(np.abs(X), initial=0.0))
+    return "magnitude-tiny" if 0 < m < 1e-4 else ("magnitude-huge" if m > 1e4 else "magnitude-moderate")
+
+
+def _lead_structure(Vref, r):
+    """labels for exact structure among the r leading reference vectors"""
+    out = []
+    W = Vref[:, :r]
+    if np.any(np.abs(W.sum(axis=0)) <= 1e-13):
+        out.append("a-leading-vector-sums-to-zero")
+    if np.abs(W[:, 0].sum()) <= 1e-13:
+        out.append("first-vector-sums-to-zero")
+    if np.any((np.abs(W) > 1e-12).sum(axis=0) <= 2):
+        out.append("a-leading-vector-has-at-most-two-entries")
+    return out
+
+
+def _denotes(obj, X):
+    D = H.den(obj)
+    scale = np.max(np.abs(X)) if X.size else 0.0
+    if not (D.shape == X.shape and np.max(np.abs(D - X), initial=0.0) <= 1e-12 * max(scale, 1e-300)):
+        raise RuntimeError(f"harness: holder does not denote the model array (max diff {np.max(np.abs(D - X))})")
+
+
+def _check(ctx, case, make_holder, holder_name):
+    X = H.dense_of(case)
+    n, r, flip = case["n"], case["r"], case["flipsign"]
+    I = X.shape[n]
+    _, lam, Vref = H.reference(X, n)
+    sep = H.separated(lam, r)
+    path = "iterative-path" if r < I - 1 else "dense-path"
+    ctx.nt = 1 < r < I and sep
+    obj, labels = make_holder(case, X)
+    if sep:
+        labels = labels + _lead_structure(Vref, r)
+    if isinstance(obj, ttb.ttensor) and isinstance(obj.core, ttb.sptensor):
+        # sptensor.ttm answers with a sparse or a dense tensor depending on the density (threshold one half), and
+        # ttensor.nvecs has one branch for each
+        d = obj.core.nnz / max(1, ref.prod(obj.core.shape))
+        labels = labels + ["core-density<=half" if d <= 0.5 else "core-density>half"]
+    ctx.label(holder_name, "family-" + case["family"], "spec-" + str(case.get("spectrum")), f"order{X.ndim}", path,
+              "separated" if sep else "not-separated", "flipsign" if flip else "noflip",
+              "r=1" if r == 1 else ("r=I" if r == I else ("r=I-1" if r == I - 1 else "1<r<I-1")),
+              "n,r:" + (case.get("npint") or "python-int"), _magnitude(X),
+              "I>20" if I > 20 else "I<=20", *labels)
+    if I > 20 and path == "iterative-path":
+        ctx.label("subspace>20" if 2 * r + 1 > 20 else "subspace=20")
+    # the holder denotes the array the reference was computed from
+    _denotes(obj, X)
+    np.random.seed(case["np_seed"])
+    with ctx.sut(f"{holder_name}.nvecs"):
+        V = obj.nvecs(_npint(case, n), _npint(case, r), flipsign=flip)
+    _verify(ctx, X, V, n, r, flip)
+
+
+def _history(ctx, case, make_holder, holder_name):
+    """steps on one object; after every step the answer is judged against the array the object denotes *now* (read
+    from its attributes), so each call may depend only on its own arguments and the current state"""
+    X = H.dense_of(case)
+    obj, labels = make_holder(case, X)
+    ctx.label(holder_name, "family-" + case["family"], f"steps={len(case['steps'])}", *labels)
+    _denotes(obj, X)
+    edited = False
+    nt = False
+    last = None
+    for k, s in enumerate(case["steps"]):
+        if s.get("edit"):
+            ctx.label(H.apply_edit(obj, s["edit"]))
+            edited = True
+        Xk = H.den(obj)
+        if not bool(np.isfinite(Xk).all()):
+            ctx.skip("edit overflowed")
+        n, r, flip = s["n"], s["r"], s["flipsign"]
+        I = Xk.shape[n]
+        target = obj
+        if s.get("fresh"):
+            target = H.fresh_copy(obj)
+            _denotes(target, Xk)
+            ctx.label("call-on-fresh-copy")
+        path = "iterative-path:" if r < I - 1 else "dense-path:"
+        np.random.seed(s["np_seed"])
+        with ctx.sut(f"{path}{holder_name}.nvecs"):
+            V = target.nvecs(_npint(case, n), _npint(case, r), flipsign=flip)
+        # an edit can make the object denote pure cancellation noise (e.g. zeroing the factor row that carried all the
+        # data of a rotated Tucker form): the value clauses need the leading eigenvalue to stand clear of the rounding
+        # noise of the representation, 1e-16 * ||den_abs||^2 (bound: noise / (SEP * lambda_1) <= 1e-8 << 1e-6)
+        lam1 = float(H.reference(Xk, n)[1][0])
+        conditioned = lam1 >= 1e-4 * float(np.sum(H.den_abs(obj) ** 2))
+        if not conditioned:
+            ctx.label("step-ill-conditioned-representation")
+        sep, _ = _verify(ctx, Xk, V, n, r, flip, pre=path, values=conditioned)
+        # the call leaves the object alone
+        ctx.check(ref.same_exact(H.den(obj), Xk), path + "nvecs-leaves-the-object-unchanged")
+        this = (n, r, flip)
+        if last is not None:
+            ctx.label("repeat-same-arguments" if this == last[0] else
+                      ("same-n-r-other-flipsign" if this[:2] == last[0][:2] else ("same-n-other-r" if n == last[0][0] else "other-n")))
+        ctx.label(("after-edit-" if edited else "before-edit-") + ("separated" if sep else "not-separated"))
+        if edited and sep and 1 < r:
+            nt = True
+        if s.get("clobber") and isinstance(V, np.ndarray) and V.flags.writeable:
+            V[...] = 7.0  # the caller owns the returned array: a later call must not see this
+            ctx.label("returned-array-overwritten")
+        last = (this, V)
+    ctx.nt = nt
+
+
+def _split(obj_label):
+    obj, lab = obj_label
+    return obj, [x for x in lab.split(",") if x]
 
 
 HOLDERS = {
-    "tensor": lambda case, X: H.as_tensor(X),
-    "sptensor": lambda case, X: H.as_sptensor(X, case["stored"]),
-    "ktensor": lambda case, X: H.as_ktensor(case, X),
-    "ttensor-dense-core": lambda case, X: H.as_ttensor(case, X, False),
-    "ttensor-sparse-core": lambda case, X: H.as_ttensor(case, X, True),
+    "tensor": (lambda case, X: _split(H.as_tensor(X, case)), H.TENSOR_STATES),
+    "sptensor": (lambda case, X: _split(H.as_sptensor(X, case["stored"], case)), H.SPTENSOR_STATES),
+    "ktensor": (lambda case, X: _split(H.as_ktensor(case, X, True)), H.KTENSOR_STATES),
+    "ttensor-dense-core": (lambda case, X: _split(H.as_ttensor(case, X, False, True)), H.TTENSOR_STATES),
+    "ttensor-sparse-core": (lambda case, X: _split(H.as_ttensor(case, X, True, True)), H.TTENSOR_STATES),
+    # scipy coo matrices as factor matrices (admitted by the constructor; ttensor.nvecs has branches of its own for them,
+    # and sptensor.ttm only then answers with a sparse tensor); sparse core, every fourth case a dense one
+    "ttensor-coo-factors": (lambda case, X: _split(H.as_ttensor(case, X, case.get("tseed", 0) % 4 != 0, True, sparse_factors=True)),
+                            H.TTENSOR_STATES),
 }
 
 
 def _register(holder):
     cls = holder.split("-")[0]
+    make, states = HOLDERS[holder]
 
-    @cell(f"C14/nvecs/{holder}/sampled", strategy=_sampled(), quick=700, thorough=9000, shards=(2, 8))
-    def sampled(ctx, case, _h=holder, _c=cls):
-        _check(ctx, case, HOLDERS[_h], _c)
+    @cell(f"C14/nvecs/{holder}/sampled", strategy=lambda tier: H.model_case(tier, states=states), quick=450, thorough=9000, shards=(2, 8))
+    def sampled(ctx, case, _m=make, _c=cls):
+        _check(ctx, case, _m, _c)
 
     @cell(f"C14/nvecs/{holder}/enumerated", enum=H.enum_models, shards=(2, 8))
-    def enumerated(ctx, case, _h=holder, _c=cls):
+    def enumerated(ctx, case, _m=make, _c=cls):
         """fixed models x every mode x every r x both sign settings"""
-        _check(ctx, case, HOLDERS[_h], _c)
+        _check(ctx, case, _m, _c)
+
+    @cell(f"C14/nvecs/{holder}/large", strategy=lambda tier: H.large_case(tier, states=states), quick=110, thorough=5000, shards=(1, 8))
+    def large(ctx, case, _m=make, _c=cls):
+        """mode size above 20 (the iterative solver's default subspace no longer spans everything): block models whose
+        leading vectors have exact structure (sum zero, few entries, sign symmetric), spectral models with generic ones"""
+        _check(ctx, case, _m, _c)
+
+    @cell(f"C14/history/{holder}", strategy=lambda tier: H.history_case(tier, states=states), quick=150, thorough=6000, shards=(1, 8))
+    def history(ctx, case, _m=make, _c=cls):
+        """2..4 calls on one object with in-place edits of its attribute arrays in between"""
+        _history(ctx, case, _m, _c)
 
 
 for _holder in HOLDERS:
@@ -140,7 +284,15 @@ def _regular(case):
     return len(case["shape"]) >= 2 and _In(case) >= 2 and _P(case) >= 2
 
 
+def _int_storage(case):
+    return H.int_dtype_of(case, H.dense_of(case)) is not None
+
+
 PREDICATES = {
+    # integer core and integer factor matrices (as_ttensor keeps the factors float when tseed is a multiple of 3)
+    "ttensor_all_integer_iterative": lambda case: _int_storage(case) and case.get("tseed", 0) % 3 != 0 and case["r"] < _In(case) - 1,
+    "sptensor_int_storage_iterative": lambda case: _int_storage(case) and case["r"] < _In(case) - 1,
+    "sptensor_int_storage_dense": lambda case: _int_storage(case) and case["r"] >= _In(case) - 1,
     "dense_path_regular": lambda case: _regular(case) and case["r"] >= _In(case) - 1,
     "dense_path": lambda case: case["r"] >= _In(case) - 1,
     "all_singleton": lambda case: all(s == 1 for s in case["shape"]),
